@@ -231,6 +231,17 @@ func redactCommand(cmd *orderedmap.OrderedMap[string, any], shouldEagerRedact bo
 			cmd.Set("u", redactArrayValues(updateArr, shouldEagerRedact, false, false, []string{}))
 		}
 	}
+	if shouldEagerRedact {
+		if _, isDistinct := cmd.Get("distinct"); isDistinct {
+			if key, ok := cmd.Get("key"); ok {
+				if keyStr, ok := key.(string); ok {
+					// the field a distinct command asks for: renamed like the same name in its
+					// query and in the plan summary
+					cmd.Set("key", HashName(keyStr))
+				}
+			}
+		}
+	}
 	if constants, ok := cmd.Get("c"); ok {
 		if constantsMap, ok := constants.(*orderedmap.OrderedMap[string, any]); ok {
 			// an update statement logged on its own ({q, u, c, ...}): the constants its
